@@ -101,6 +101,8 @@ FAMILIES["solve"] = dict(SOLVE_FAMILY, rule="generated provider universes (1-8 p
     "in 3 shapes (general/tight/hinted), sync runtime; non-trivial = the run learnt a clause, or ended Unsolvable, or made >= 4 assignments; distinct by sha256 of the case")
 FAMILIES["soft"] = dict(SOLVE_FAMILY, rule="as `solve` plus 1-4 soft requirements drawn from all solvables (compatible, incompatible, duplicates, other versions of installed packages, excluded, locked-out, Unknown deps)")
 FAMILIES["lazy"] = dict(SOLVE_FAMILY, rule="as `solve` (general and tight shapes) but with no availability hints anywhere, locks on 1/4 of the packages and constrains on 1/2 of the solvables - the setting of C09")
+FAMILIES["hints"] = dict(SOLVE_FAMILY, rule="as `solve` but every package carries a dependency-availability hint (All, or a random subset); half of the universes are tight (2-5 candidates, 1-3 requirements each) with constrains on 1/2 of the solvables, "
+    "so hinted candidates are frequently already false when a requirement first reveals them and are selected later after backtracking (the eager-encoding paths of the encoder)")
 FAMILIES["cancel"] = dict(SOLVE_FAMILY, rule="universes of all shapes (general/tight/hinted/soft/lazy); the uncancelled run is measured first and a cancellation plan drawn from it: the signal is up at poll k (k uniform over all polls of the run, incl. never), "
     "or goes up while provider request number j is being served (j uniform over all requests); 1/3 transient (up only at that poll / until the next request starts)")
 FAMILIES["reuse"] = dict(SOLVE_FAMILY, rule="2-4 solves on ONE solver over a generated universe (same problem again, or new requirements / constraints / soft lists), sync runtime; half of the cases with a transient cancellation placed at a random poll or provider request of the uncancelled history, so later solves run after a Cancelled (and after Unsolvable) outcome")
@@ -151,6 +153,8 @@ TB_COMMON = []
 SOLVE_Q = {"quick": 8000, "thorough": 150000}
 SOFT_Q = {"quick": 8000, "thorough": 150000}
 CF_Q = {"quick": 6000, "thorough": 100000}
+HINTS_Q = {"quick": 6000, "thorough": 100000}
+LAZY_Q = {"quick": 8000, "thorough": 150000}
 
 PROPS = {
     "C01": {
@@ -159,7 +163,7 @@ PROPS = {
         "level": "proof", "module": "Resolvo.Props.C01", "imports": ["Resolvo.MDet.CheckedProofs"],
         "theorems": ["Resolvo.MDet.solveChecked_ok_valid", "Resolvo.C01.valid_decided", "Resolvo.C01.valid_unfold", "Resolvo.C01.valid_mono_exempt",
                      "Resolvo.validB_iff", "Resolvo.Abs.mu_satisfies"],
-        "families": [("solve", SOLVE_Q), ("soft", SOFT_Q), ("conflictfree", CF_Q)],
+        "families": [("solve", SOLVE_Q), ("soft", SOFT_Q), ("conflictfree", CF_Q), ("hints", HINTS_Q)],
         "profiles": ["debug", "release"],
         "explanation": "PROVED (Lean, all universes/problems/cancellation plans/cache states/fuel): solveChecked_ok_valid - every solution returned by the checked deterministic model of Solver::solve (MDet.solve followed by the verified checkers; objections are the explicit outcome checkFailed) satisfies the full statement of C01 incl. the soft exemption; validB decides Valid exactly. "
                        "TIE: MDet.solve is compared with the real Solver::solve on every generated case for exact equality of result, solution order, provider call log (with cancellation polls) and the complete solver history (variables, clauses, assignments with levels and reasons, undos, learnt clauses with antecedents); validB is also evaluated on the implementation's own answers (debug and release builds). "
@@ -173,7 +177,7 @@ PROPS = {
         "theorems": ["Resolvo.MDet.solveChecked_unsat_sound", "Resolvo.MDet.solveChecked_ok_solvable", "Resolvo.C02.unsat_certified", "Resolvo.C02.decideSolvable_correct", "Resolvo.C02.ok_solvable",
                      "Resolvo.C02.verdict_invariant", "Resolvo.Abs.fail_sound", "Resolvo.Sat.rup_sound", "Resolvo.Sat.decideSat'_iff",
                      "Resolvo.encodeAll_iff", "Resolvo.Abs.step_linv", "Resolvo.Abs.step_sinv"],
-        "families": [("solve", SOLVE_Q), ("soft", SOFT_Q), ("conflictfree", CF_Q)],
+        "families": [("solve", SOLVE_Q), ("soft", SOFT_Q), ("conflictfree", CF_Q), ("hints", HINTS_Q)],
         "explanation": "Proof of a certifying checker: every Unsolvable verdict of the implementation is re-derived by a kernel-verified checker from the implementation's own history (fail_sound), and compared with a verified independent decision procedure (decideSolvable_iff). Termination/completeness of the search (C02 (d)) is not proved.",
         "assumptions": ["CandsKnown U (listed candidates have table entries) for the reference decision procedure",
                         "the verif-hooks history is emitted faithfully (an omitted event makes the checker reject, not accept)"],
@@ -183,13 +187,13 @@ PROPS = {
         "nt_rule": "unsat_graph",
         "level": "other", "module": "Resolvo.Props.C03",
         "theorems": ["Resolvo.C03.refutes_exact", "Resolvo.C03.learnt_from_antecedents", "Resolvo.C03.clauses_truthful", "Resolvo.Graph.graphRefutes_iff"],
-        "families": [("solve", SOLVE_Q), ("soft", SOFT_Q)],
+        "families": [("solve", SOLVE_Q), ("soft", SOFT_Q), ("lazy", LAZY_Q), ("hints", HINTS_Q)],
         "explanation": "PROVED: the refutation oracle is exact (verified DPLL on a formula read from the graph alone); learnt clauses of accepted histories are entailed by their recorded antecedents; all clauses of accepted histories have true provenance. CHECKED PER RUN on every Unsolvable answer: each edge of the implementation's ConflictGraph against the provider tables, reachability from the root, graphRefutes, and that the clause ids blamed by the Conflict refute the root on their own and contain no learnt clause. NOT YET PROVED: that the model of analyze_unsolvable / Conflict::graph always produces such a graph.",
     },
     "C04": {
         "nt_rule": "any",
         "level": "other", "module": "Resolvo.Props.C04", "theorems": ["Resolvo.C04.oracle_total"],
-        "families": [("solve", SOLVE_Q), ("soft", SOFT_Q), ("conflictfree", CF_Q)],
+        "families": [("solve", SOLVE_Q), ("soft", SOFT_Q), ("conflictfree", CF_Q), ("hints", HINTS_Q)],
         "profiles": ["debug", "release"],
         "explanation": "CHECKED PER RUN: every case runs under catch_unwind (solve, Conflict::graph, graphviz, display_user_friendly separately), a per-case watchdog (hang = failure) and an address-space limit (runaway output = failure), in debug-assertion and release builds. PROVED: only the totality/correctness of the oracles. NOT PROVED: termination and panic-freedom of the search for all inputs.",
         "assumptions": ["well-formed providers only (WF checked by the driver)"],
@@ -198,7 +202,7 @@ PROPS = {
         "nt_rule": "ok_after_learning",
         "level": "proof", "module": "Resolvo.Props.C05", "imports": ["Resolvo.MDet.CheckedProofs"],
         "theorems": ["Resolvo.MDet.solveChecked_ok_supported", "Resolvo.C05.supportedB_sound", "Resolvo.C05.closure_sound"],
-        "families": [("solve", SOLVE_Q), ("soft", SOFT_Q), ("conflictfree", CF_Q)],
+        "families": [("solve", SOLVE_Q), ("soft", SOFT_Q), ("conflictfree", CF_Q), ("hints", HINTS_Q)],
         "explanation": "PROVED (all inputs): every solvable in a solution returned by the checked model is Supported (solveChecked_ok_supported). TIE: exact correspondence of MDet.solve with the real solver (result, solution order, history) + supportedB on every implementation answer. NOT PROVED: that checkFailed never occurs (checked per run); completeness of the closure oracle.",
     },
     "C06": {
@@ -225,21 +229,24 @@ PROPS = {
     "C09": {
         "nt_rule": "calls5",
         "level": "other", "module": "Resolvo.Props.C09", "theorems": ["Resolvo.C09.at_most_once_cache"],
-        "families": [("lazy", {"quick": 8000, "thorough": 150000}), ("conflictfree", CF_Q), ("soft", SOFT_Q), ("cache", {"quick": 1500, "thorough": 20000})],
+        "families": [("lazy", LAZY_Q), ("conflictfree", CF_Q), ("soft", SOFT_Q), ("cache", {"quick": 1500, "thorough": 20000})],
         "explanation": "PROVED: cache-level at-most-once. CHECKED PER RUN: causal order and at-most-once of the provider call log of every sync run without hints; exact call-log correspondence of SolverCache with its model.",
     },
     "C10": {
         "nt_rule": "async3",
         "level": "other", "module": "Resolvo.Props.C10", "theorems": ["Resolvo.C10.verdict_reference"],
-        "families": [("async", {"quick": 8000, "thorough": 150000}), ("reuse-async", {"quick": 4000, "thorough": 80000})],
-        "explanation": "CHECKED PER RUN (real solver, manual single-threaded executor, FIFO/LIFO/random completion orders, optionally async filter/sort): validB on every answer, verdict = verified decideSolvable (= sync verdict), no obtained answer requested twice, no deadlock (solver pending with nothing outstanding), no panic. PROVED: exactness of the verdict reference. NOT PROVED: a model of the FuturesUnordered/Event protocol (planned Sched.lean); waker delivery and cooperative yielding of real executors are outside the model.",
+        "families": [("async", {"quick": 8000, "thorough": 150000}), ("reuse-async", {"quick": 4000, "thorough": 80000}), ("async-cf", {"quick": 4000, "thorough": 80000})],
+        "explanation": "MODEL: MDet/Async.lean models Encoder::encode with a suspending provider exactly - FuturesUnordered's ready queue, the in-flight marker and Event listeners of get_or_cache_candidates, try_join_all over the version sets of a requirement, and the executor's quiescent points - for a single-threaded executor that completes one outstanding request at a time; the schedule (completion order) is an input. "
+                       "TIE (every async case with synchronous filter/sort, 2/3 of the family): result, solution order, provider call log with the start (c/d) and answer-obtained (C/D) markers and cancellation polls, the executor's event log (`pending <set>` at every quiescent point, `complete <label>`) and the complete solver history are compared for exact equality with the real solver run under the same completion order (FIFO, LIFO, seeded random schedules; also after Cancelled/Unsolvable solves on a reused solver). "
+                       "CHECKED PER RUN on every case incl. asynchronous filter/sort: validB on every answer, verdict = verified decideSolvable (= sync verdict), no provider request issued twice within a solve and none repeated once answered, no deadlock (solver pending with nothing outstanding), no panic. PROVED: exactness of the verdict reference; the checked-model theorems of C01/C02/C05 apply to the async model's answers as to the sync model's (they quantify over the model's output). NOT PROVED: invariants of the async model itself (at-most-once, quiescent-point concurrency) are evaluated per run, not yet theorems; waker delivery and cooperative yielding of real multi-threaded executors are outside the model.",
         "assumptions": ["single-threaded executor that wakes a task only when the future it is parked on completes"],
     },
     "C11": {
         "nt_rule": "async3",
         "level": "other", "module": "Resolvo.Props.C10", "theorems": [],
-        "families": [("async", {"quick": 8000, "thorough": 150000}), ("reuse-async", {"quick": 4000, "thorough": 80000})],
-        "explanation": "CHECKED PER RUN: at every quiescent point of every schedule (the solver's future returned Pending without a pending self-wake) the set of outstanding provider requests is recorded; c11Check requires every get_candidates request implied by dependency information already received (the root's, and that of every solvable whose get_dependencies has completed) to be outstanding or answered - in particular a root with k requirements on distinct packages has k candidate requests in flight at the first quiescent point. No theorem yet (no scheduler model); claimed as exploration with an executable oracle.",
+        "families": [("async", {"quick": 8000, "thorough": 150000}), ("reuse-async", {"quick": 4000, "thorough": 80000}), ("async-cf", {"quick": 4000, "thorough": 80000})],
+        "explanation": "MODEL + TIE: as C10 - the async encoder model reproduces the set of outstanding provider requests at every quiescent point of the real solver exactly (`pending ...` events compared for equality under the same completion order), so a change that serialises independent requests changes the pending sets and breaks the correspondence. "
+                       "ORACLE on the implementation's own log: c11Check requires every get_candidates request implied by dependency information already received (the root's, and that of every solvable whose get_dependencies has completed) to be outstanding or answered at every quiescent point - in particular a root with k requirements on distinct packages has k candidate requests in flight at the first quiescent point. No theorem about the model's concurrency yet; claimed as exploration with an executable oracle and an exact model.",
     },
     "C13": {
         "nt_rule": "multi",
@@ -301,12 +308,12 @@ PROPS = {
     },
     "C17": {
         "facts": ["vector_header_agrees"],
-        "level": "other", "module": "Resolvo.Props.C17", "theorems": ["Resolvo.C17.layout_agree", "Resolvo.C17.roundUp_of_dvd", "Resolvo.C17.frame"],
+        "level": "other", "module": "Resolvo.Props.C17", "theorems": ["Resolvo.C17.cow_refines", "Resolvo.Cow.run_refines", "Resolvo.Cow.step_refines", "Resolvo.Cow.inv_safe", "Resolvo.C17.layout_agree", "Resolvo.C17.roundUp_of_dvd", "Resolvo.C17.frame"],
         "cpp": [("solve", "conflictfree", {"quick": 800, "thorough": 20000}), ("solve", "lazy", {"quick": 800, "thorough": 20000}),
                 ("solve", "soft", {"quick": 800, "thorough": 20000}), ("containers", "containers", {"quick": 3000, "thorough": 60000})],
         "families": [],
         "explanation": "PROVED: Rust and C++ compute the same allocation size, alignment and data offset for every capacity (layout_agree) and list the same header fields (regenerated from both sources); spec-level frame property. "
-                       "CHECKED PER RUN: the refcounted heap model of the header's algorithms keeps its invariant and refines the value-semantics spec on every generated operation sequence (not yet proved). "
+                       "PROVED (all handle counts, all operation sequences on existing handles): the refcounted heap model of the header's algorithms (share on copy, detach before write, release-then-acquire copy assignment, swap on move, uncounted static empty block) keeps the reference-count invariant, refines the value-semantics spec, never touches a freed block and leaks none (cow_refines). "
                        "EXPLORED (memory safety cannot be carried by a theorem about a model): a C++ translation unit with a table-driven DependencyProvider, linked against the staticlib built from /repo/cpp with clang++ -fsanitize=address,undefined, solves the generated cases through resolvo::solve and must print exactly the Rust API's solution order / error text; generated container operation sequences (incl. self-assignment and push of an own element) run on the real Vector/String with ASan+UBSan+LeakSanitizer and must show the spec's contents after every operation. Three genuine defects found and repaired. "
                        "NOT COVERED: problems with Unknown dependencies (not expressible through the C++ interface), the Rust-side Vector/String operations (Miri), ABI/transmute layout beyond the header arithmetic.",
     },
